@@ -155,6 +155,10 @@ func c31Emit(emit func(...string), dots []piecefunc.Dot, args []string) {
 
 func c31GenDots(r *rand.Rand) []piecefunc.Dot {
 	n := 2 + r.Intn(5)
+	if r.Intn(6) == 0 { // long lists: the search loop breaks late, arguments hit interior dots
+		n = 10 + r.Intn(21)
+		vu.Stat("dots_10_to_30")
+	}
 	xs := make([]uint64, 0, n)
 	seen := map[uint64]bool{}
 	cluster := r.Intn(3) == 0
@@ -162,9 +166,9 @@ func c31GenDots(r *rand.Rand) []piecefunc.Dot {
 	for len(xs) < n {
 		x := c31Coord(r)
 		if cluster { // neighbouring dots a few units apart: the rounding of ratio matters most
-			x = base + uint64(r.Intn(40))
+			x = base + uint64(r.Intn(40+3*n))
 			if x > c31MaxVal {
-				x = c31MaxVal - uint64(r.Intn(40))
+				x = c31MaxVal - uint64(r.Intn(40+3*n))
 			}
 		}
 		if !seen[x] {
@@ -296,6 +300,14 @@ func init() {
 						vu.Stat("get_after")
 					default:
 						vu.Stat("get_inside")
+						for i := 1; i+1 < len(dots); i++ {
+							if dots[i].X == x {
+								vu.Stat("get_at_interior_dot")
+								if i >= 8 {
+									vu.Stat("get_at_interior_dot_index_ge_8")
+								}
+							}
+						}
 					}
 					obs = append(obs, vu.U64(y))
 				}()
